@@ -48,6 +48,7 @@ def _run(shard, rec, ss, enum):
     cls = {"init": ss.InitSequenceStart, "ping": ss.PingSequenceStart, "account": ss.AccountReplySequenceStart}[fn]
     n = 0
     values = set()
+    held = []
     while True:
         enum.begin()
         try:
@@ -61,6 +62,22 @@ def _run(shard, rec, ss, enum):
             continue
         draws = enum.current()
         n += 1
+        # starts generated earlier stay alive (one per connection): creating another one must not change them
+        for ho, hv, h1, h2, hd in held:
+            try:
+                now = (ho.value, getattr(ho, "seq1", None), getattr(ho, "seq2", None))
+            except Exception as ex:
+                now = repr(ex)
+            if now != (hv, h1, h2):
+                rec.violation("earlier-start-changed", "%s start generated from draws %r showed (value, seq1, seq2) = %r, after a later generate() it shows %r" % (fn, hd, (hv, h1, h2), now), {"fn": fn, "draws": hd, "later_draws": draws})
+                break
+        rec.count("earlier-starts-rechecked", len(held))
+        try:
+            held.append((s, s.value, getattr(s, "seq1", None), getattr(s, "seq2", None), draws))
+        except Exception:
+            pass
+        if len(held) > 3:
+            del held[0 if n % 2 else 1]
         check(fn, cls, s, draws, rec)
         values.add(getattr(s, "value", None))
         if n <= 1:
